@@ -498,6 +498,7 @@ func driveMsgQueue(c *ctx) error {
 	}
 	// run in parallel: each case has its own queue, allocator and network
 	var wg sync.WaitGroup
+	retried := 0
 	sem := make(chan struct{}, 1) // sequential: parking is detected from goroutine stacks of the whole process
 	for i := range cases {
 		wg.Add(1)
@@ -506,9 +507,20 @@ func driveMsgQueue(c *ctx) error {
 			defer wg.Done()
 			defer func() { <-sem }()
 			cases[i].labels, cases[i].obs, cases[i].err, cases[i].hung = runMqCase(cases[i].mc)
+			if cases[i].hung {
+				// the 5s wait for the goroutines to park expired (machine under load): the observations of
+				// such a run are not taken at parked states, so run the case again; a second expiry is kept
+				// and reported (a queue goroutine that never parks is a real defect)
+				time.Sleep(200 * time.Millisecond)
+				cases[i].labels, cases[i].obs, cases[i].err, cases[i].hung = runMqCase(cases[i].mc)
+				retried++
+			}
 		}(i)
 	}
 	wg.Wait()
+	if retried > 0 {
+		w.Stats.Extra = map[string]interface{}{"cases_rerun_after_wait_expired": retried}
+	}
 	for _, r := range cases {
 		tags := []string{"kind:" + r.tag}
 		if r.err {
